@@ -24,42 +24,42 @@ type loopInfo struct {
 }
 
 type Exec struct {
-	V        *Verifier
-	fn       *ssa.Function
-	sigma    Subst
-	fc       *FuncContract
-	run      string // "safe" or behaviour name
-	beh      *Behavior
-	inst     string // display name with instantiation
-	obs      []*Obligation
-	loops    map[*ssa.BasicBlock]*loopInfo
-	names    map[string]Value // contract-visible names: params, ghosts
-	ghosts   map[string]*Term
-	holes    map[string]string
-	old      *State
-	onReturn func(st *State, results []Value)
-	emitSafe bool
-	props    []string
-	paths    int
-	returns  int
-	unsupported []string
-	noLoopCheck bool
-	maxPaths int
-	pendingForks []fork
-	callNo   map[ssa.Instruction]int
-	assumeOK  func(st *State, fc *FuncContract, in ssa.Instruction, hyp *Term)
-	assumeBeh func(st *State, fc *FuncContract, b *Behavior, in ssa.Instruction, hyp *Term)
-	onCall    func(st *State, rec *CallRecord)
-	onAcquire func(st *State, guarded *Obj)
-	onRelease func(st *State, mu *Obj)
+	V              *Verifier
+	fn             *ssa.Function
+	sigma          Subst
+	fc             *FuncContract
+	run            string // "safe" or behaviour name
+	beh            *Behavior
+	inst           string // display name with instantiation
+	obs            []*Obligation
+	loops          map[*ssa.BasicBlock]*loopInfo
+	names          map[string]Value // contract-visible names: params, ghosts
+	ghosts         map[string]*Term
+	holes          map[string]string
+	old            *State
+	onReturn       func(st *State, results []Value)
+	emitSafe       bool
+	props          []string
+	paths          int
+	returns        int
+	unsupported    []string
+	noLoopCheck    bool
+	maxPaths       int
+	pendingForks   []fork
+	callNo         map[ssa.Instruction]int
+	assumeOK       func(st *State, fc *FuncContract, in ssa.Instruction, hyp *Term)
+	assumeBeh      func(st *State, fc *FuncContract, b *Behavior, in ssa.Instruction, hyp *Term)
+	onCall         func(st *State, rec *CallRecord)
+	onAcquire      func(st *State, guarded *Obj)
+	onRelease      func(st *State, mu *Obj)
 	onAcquireState func(st *State, guarded *Obj)
-	isCallee  bool
-	rtMode    bool
-	phiProv   map[*ssa.Phi]string
-	inlineDepth int
-	noAcqLimit bool // init runs several registry operations one after the other
-	pkgForTags *ssa.Package
-	trackWrites bool
+	isCallee       bool
+	rtMode         bool
+	phiProv        map[*ssa.Phi]string
+	inlineDepth    int
+	noAcqLimit     bool // init runs several registry operations one after the other
+	pkgForTags     *ssa.Package
+	trackWrites    bool
 }
 
 func (x *Exec) fail(st *State, kind, name, detail string) {
@@ -1739,7 +1739,10 @@ func (x *Exec) doConvert(st *State, in *ssa.Convert) Value {
 		return VInt{wrap(ti, x.intOf(v))}
 	}
 	if tok && ti.Kind == "string" {
-		if sl, ok := v.(VSlice); ok { // string([]byte)
+		if sl, ok := v.(VSlice); ok { // string([]byte); string([]rune) encodes UTF-8 and is outside the subset
+			if ei, eok := basicInfo(x.resolve(sl.Elem)); !eok || ei.Width != 1 || ei.Kind != "uint" {
+				panic("unsupported:convert " + from.String() + " -> string (UTF-8 encoding)")
+			}
 			c := x.sliceContent(st, sl)
 			st.alloc = Add(st.alloc, Len(c))
 			return VStr{c}
@@ -1756,7 +1759,10 @@ func (x *Exec) doConvert(st *State, in *ssa.Convert) Value {
 		}
 	}
 	if fok && fi.Kind == "string" {
-		if s, ok := to.Underlying().(*types.Slice); ok { // []byte(string)
+		if s, ok := to.Underlying().(*types.Slice); ok { // []byte(string); []rune(string) decodes UTF-8 and is outside the subset
+			if ei, eok := basicInfo(x.resolve(s.Elem())); !eok || ei.Width != 1 || ei.Kind != "uint" {
+				panic("unsupported:convert string -> " + to.String() + " (UTF-8 decoding)")
+			}
 			sv := v.(VStr)
 			arr := x.newArray(st, s.Elem(), sv.T, "bytes-of-string", "fresh")
 			st.alloc = Add(st.alloc, Len(sv.T))
